@@ -2,6 +2,7 @@ package main
 
 import (
 	"fmt"
+	"sort"
 	"go/constant"
 	"go/token"
 	"go/types"
@@ -145,6 +146,7 @@ const (
 	stRetry
 	stEnd
 	stYield
+	stFallback
 )
 
 type Alt struct {
@@ -217,8 +219,13 @@ func (st *State) newObj(n int, zeros []Value, name string) *Obj {
 	st.nextObj++
 	o.slots = make([]Value, n)
 	copy(o.slots, zeros)
+	if n > bigObj {
+		o.dirty = map[int]struct{}{}
+	}
 	return o
 }
+
+const bigObj = 2048
 
 func (st *State) allocType(t types.Type, name string) Pointer {
 	l := st.eng.layout(t)
@@ -227,6 +234,9 @@ func (st *State) allocType(t types.Type, name string) Pointer {
 }
 
 func (st *State) setSlot(o *Obj, i int, v Value) {
+	if o.dirty != nil {
+		o.dirty[i] = struct{}{}
+	}
 	if st.trailOn {
 		st.trail = append(st.trail, trailEnt{kind: tkSlot, obj: o, idx: i, old: o.slots[i]})
 	}
@@ -311,13 +321,48 @@ func (st *State) loadSlot(p Pointer, k int, lt types.Type) Value {
 		e int
 		v Value
 	}
-	cands := make([]cand, 0, cHi-cLo)
-	for e := cLo; e < cHi; e++ {
-		pos := p.off + e*p.stride + k
-		if pos < 0 || pos >= len(p.obj.slots) {
-			continue
+	var cands []cand
+	if p.obj.dirty != nil && cHi-cLo > 64 {
+		// sparse object: only written cells can differ from the zero value
+		var defv Value
+		defFound := false
+		es := make([]int, 0, len(p.obj.dirty))
+		for pos := range p.obj.dirty {
+			d := pos - p.off - k
+			if d < 0 || d%p.stride != 0 {
+				continue
+			}
+			e := d / p.stride
+			if e >= cLo && e < cHi {
+				es = append(es, e)
+			}
 		}
-		cands = append(cands, cand{e, p.obj.slots[pos]})
+		sort.Ints(es)
+		if len(es) < cHi-cLo {
+			// find an unwritten cell for the default
+			for e := cLo; e < cHi; e++ {
+				pos := p.off + e*p.stride + k
+				if _, w := p.obj.dirty[pos]; !w && pos < len(p.obj.slots) {
+					defv, defFound = p.obj.slots[pos], true
+					break
+				}
+			}
+		}
+		for _, e := range es {
+			cands = append(cands, cand{e, p.obj.slots[p.off+e*p.stride+k]})
+		}
+		if defFound {
+			cands = append(cands, cand{-1, defv})
+		}
+	} else {
+		cands = make([]cand, 0, cHi-cLo)
+		for e := cLo; e < cHi; e++ {
+			pos := p.off + e*p.stride + k
+			if pos < 0 || pos >= len(p.obj.slots) {
+				continue
+			}
+			cands = append(cands, cand{e, p.obj.slots[pos]})
+		}
 	}
 	if len(cands) == 0 {
 		st.unsupported("symbolic load: no candidates")
@@ -335,6 +380,10 @@ func (st *State) loadSlot(p Pointer, k int, lt types.Type) Value {
 		if n > best {
 			best, def = n, v
 		}
+	}
+	if len(cands) > 0 && cands[len(cands)-1].e == -1 {
+		def = cands[len(cands)-1].v // sparse default covers every unwritten cell
+		cands = cands[:len(cands)-1]
 	}
 	res := def
 	for i := len(cands) - 1; i >= 0; i-- {
@@ -942,6 +991,7 @@ func (st *State) protect(f func() status) (s status) {
 				st.endReason, st.endMsg = endUnsupported, x.msg+" @ "+st.where()
 				s = stEnd
 			case goPanic:
+				x.msg += " @ " + st.where()
 				s = st.startPanic(x)
 			case needConcrete:
 				s = st.concretize(x.t)
